@@ -370,3 +370,24 @@ def boundary_immediate_items(pt, shard, nshards):
                         return pt.Seq(pt.Pop(e), I(1))
                     it = Item("immediates", "app" if k % 3 else "sig", v, (None, None), {"kind": "boundary_" + kind, "a": a, "b": b})
                     yield _compile(pt, it, make, assemble=(k % 4 == 0 and v >= 3))
+
+
+def constant_block_items(pt, shard, nshards):
+    """Deterministic sweep around the 256-entry capacity of the constant blocks: n distinct byte (or int) constants, each used twice,
+    compiled with assembleConstants - every `bytec`/`intc` index has to fit its one-byte immediate and lie inside the block."""
+    k = 0
+    for kind in ("bytes", "ints"):
+        for n in (255, 256, 257, 260):
+            for v in (3, 6, 10):
+                k += 1
+                if k % nshards != shard:
+                    continue
+
+                def make(kind=kind, n=n):
+                    if kind == "bytes":
+                        lits = [pt.Bytes("c%05d" % i) for i in range(n)]
+                    else:
+                        lits = [pt.Int(100000 + i) for i in range(n)]
+                    return pt.Seq(*[pt.Pop(x) for x in lits], *[pt.Pop(x) for x in lits], pt.Int(1))
+                it = Item("immediates", "app" if k % 2 else "sig", v, (None, None), {"kind": "constant_block_" + kind, "n": n})
+                yield _compile(pt, it, make, assemble=True)
